@@ -114,8 +114,10 @@ def get_html_md_word_splitter() -> WordSplitter:
 
 # Pattern to identify words that need escaping if they start a wrapped markdown line.
 # Matches list markers (*, +, -) bare or before a space (but not before a letter for
-# example), blockquotes (> ), headings (#, ##, etc.).
-_md_specials_pat = re.compile(r"^([-*+>]|#+)$")
+# example), headings (#, ##, etc.), runs of the thematic break and setext underline
+# characters (---, ***, ___, ===, also spaced out like "_ _ _"), anything starting with
+# a blockquote marker (>, >x) and code fence openers (```, ~~~).
+_md_specials_pat = re.compile(r"^([-*+_=]+|>.*|#+|`{3,}.*|~{3,}.*)$", re.DOTALL)
 
 # Separate pattern to specifically find the numbered list cases for targeted escaping
 _md_numeral_pat = re.compile(r"^[0-9]+[.)]$")
